@@ -125,3 +125,59 @@ def register_lincomb(reg):
         bounded="coordinate elements: P1/P2 triangle, Q1 hexahedron, P1 interval in 3D",
         mutants=[("offset = num_scalar_dofs * dim", "offset = num_dofs"),
                  ("ic.global_index * dim + begin + offset", "ic.global_index + begin * dim + offset")]))
+
+
+def register_table_access(reg):
+    """access.table_access: index tuple (perm, entity, point, dof) with collapsed axes; tensor-product branch (C01, C03, C10)."""
+    F1, F2 = "FE_TF0", "FE_TF1"
+
+    def mk_self(interp, name):
+        symbols = FFCXBackendSymbols({}, {}, {})
+        for n in (TABLE, F1, F2):
+            symbols.element_tables[n] = L.Symbol(n, L.DataType.REAL)
+        return FFCXBackendAccess("cell", "cell", symbols, {})
+
+    def mk_td(interp, name):
+        tt = ["varying", "piecewise", "uniform", "fixed"][interp.ctx.decide(4, "ttype")]
+        perm = interp.ctx.decide(2, "is_permuted") == 1
+        tensor = interp.ctx.ghost["tensor"]
+        tf = [types.SimpleNamespace(name=F1), types.SimpleNamespace(name=F2)] if tensor else None
+        return types.SimpleNamespace(name=TABLE, is_uniform=tt in ("fixed", "uniform"), is_piecewise=tt in ("fixed", "piecewise"),
+                                     is_permuted=perm, tensor_factors=tf)
+
+    def mk_tensor(interp, name):
+        t = interp.ctx.decide(2, "tensor-product indices") == 1
+        interp.ctx.ghost["tensor"] = t
+        return t
+
+    def mk_q(interp, name):
+        if interp.ctx.ghost["tensor"]:
+            return L.MultiIndex([L.Symbol("iq0", L.DataType.INT), L.Symbol("iq1", L.DataType.INT)], [4, 4])
+        return L.MultiIndex([L.Symbol("iq", L.DataType.INT)], [7])
+
+    def mk_d(interp, name):
+        if interp.ctx.ghost["tensor"]:
+            return L.MultiIndex([L.Symbol("ic0", L.DataType.INT), L.Symbol("ic1", L.DataType.INT)], [3, 3])
+        return L.MultiIndex([L.Symbol("ic", L.DataType.INT)], [6])
+
+    PERM = "(env.mem('quadrature_permutation', [1 if restriction == '-' else 0]) if tabledata.is_permuted else 0)"
+    ENT = ("(0 if (tabledata.is_uniform or entity_type == 'cell') else env.mem('entity_local_index',"
+           " [1 if (entity_type == 'facet' and restriction == '-') else 0]))")
+    reg.add(Contract(
+        "ffcx/codegeneration/access.py::FFCXBackendAccess.table_access",
+        dict(self=Custom(mk_self), tabledata=Custom(mk_td), entity_type=ENTITY, restriction=RESTR, quadrature_index=Custom(mk_q),
+             dof_index=Custom(mk_d)),
+        ghosts=dict(tensor=Custom(mk_tensor)),
+        ensures=[
+            "implies(not tensor, ev(result[0], env) == env.mem(TABLE, [" + PERM + ", " + ENT + ","
+            " (0 if tabledata.is_piecewise else env.sym('iq')), env.sym('ic')]))",
+            "implies(not tensor, [s.name for s in result[1]] == [TABLE])",
+            # sum factorisation: product over the directions of the 1D factor tables, same permutation / entity
+            "implies(tensor, ev(result[0], env) == env.mem('FE_TF0', [" + PERM + ", " + ENT + ", env.sym('iq0'), env.sym('ic0')])"
+            " * env.mem('FE_TF1', [" + PERM + ", " + ENT + ", env.sym('iq1'), env.sym('ic1')]))",
+            "implies(tensor, [s.name for s in result[1]] == ['FE_TF0', 'FE_TF1'])",
+        ],
+        properties=["C01", "C02", "C03", "C08", "C10"], modular=False, name="FFCXBackendAccess.table_access",
+        mutants=[("iq_i = quadrature_index.local_index(i)\n                ic_i = dof_index.local_index(i)",
+                  "iq_i = quadrature_index.local_index(i)\n                ic_i = dof_index.local_index(0)"),
+                 ('if restriction == "-":\n                qp = self.symbols.quadrature_permutation[1]', 'if restriction == "+":\n                qp = self.symbols.quadrature_permutation[1]')]))
